@@ -12,7 +12,7 @@ from .common import HEADER, FOOTER, contract, extract_struct, extract_struct_pri
 
 def build():
     u = Unit("u8_writer_tail")
-    u.rlimit = 150  # the tail region is one long straight-line proof (measured: ~120M rlimit units, 9 s)
+    u.rlimit = 50  # every region query is small (measured: <= 1.1M rlimit units each, ~1 s in total, stable over 8 solver seeds)
     u.raw("#![feature(allocator_api)]\n" + HEADER, "header")
     u.raw("use std::collections::{BTreeMap, HashSet};\nuse std::io::Write;\n", "glue")
     raw = u.source("src/cache/raw.rs")
@@ -91,23 +91,10 @@ def build():
     B = sub(mb_.start(), loop_close, "tail-B:classes")
     C = sub(loop_close, len(tail.orig), "tail-C:sections")
 
-    LPA = "hb, z1, cb, z2, mb, z3, pb, z4, strs"
     GHOSTS = """let ghost nn = cs.len() as int;
         let ghost canon = canonical(cs, strs);
-        let ghost hb = hdr_bytes(header_of(cs, strs));
-        let ghost cb = classes_bytes(cs, nn);
-        let ghost mb = members_bytes(all_members(cs, nn));
-        let ghost pb = members_bytes(all_by_params(cs, nn));
-        let ghost z1 = zeros(pad_len(hb.len() as int)); let ghost z2 = zeros(pad_len(cb.len() as int));
-        let ghost z3 = zeros(pad_len(mb.len() as int)); let ghost z4 = zeros(pad_len(pb.len() as int));
-        let ghost p2 = Seq::<u8>::empty() + hb + z1;
-        proof {
-            axiom_record_sizes(); lemma_classes_len(cs, nn);
-            lemma_canonical_flat(cs, strs);
-            lemma_layout_prefixes(canon, %s);
-            lemma_tail_aligned(cs, strs);
-        }
-        """ % LPA
+        proof { axiom_record_sizes(); }
+        """
 
     def shims(reg):
         reg.replace_all_re(r"classes\s*\.values\(\)\s*\.map\(\|c\| c\.class\.members_len\)\s*\.sum::<u32>\(\)", "shim_sum_members_len(&classes)", "R2",
@@ -126,23 +113,25 @@ def build():
     CHUNKS = [(r"header\.as_bytes\(\)", "hdr_bytes(header)"), (r"c\.class\.as_bytes\(\)", "class_bytes(c.class)"),
               (r"&string_bytes", "string_bytes@"), (r"([a-z_]+)\.as_bytes\(\)", r"members_bytes(\1@)")]
 
+    AFTER = """
+        proof { assert(writer.inner.sunk() == sunk0 + tail_prefix(stage, cs, strs)); assert(writer.offset as int == tail_prefix(stage, cs, strs).len() % 8); }"""
+
     def track(reg, inloop_range=None):
-        """generic tracking of every `writer.write_all(X)?;` / `writer.pad_to_8()?;` statement, in whatever order they occur"""
+        """generic tracking of every `writer.write_all(X)?;` / `writer.pad_to_8()?;` statement, in whatever order they occur:
+        ghost `stage` = number of layout chunks delivered so far; the step lemmas of contracts/writer_lemmas.rs carry the rest"""
         lo, hi = inloop_range or (-1, -1)
         for m in re.finditer(r"writer\s*\.\s*(write_all\((.*?)\)|pad_to_8\(\))\s*\?;", reg.orig, re.S):
             inloop = lo < m.start() < hi
             if m.group(1).startswith("pad_to_8"):
-                reg.insert_at(m.start(), """let ghost chunk = zeros(pad_len(writer.offset as int));
-        proof { if stage >= 1 && stage %% 2 == 1 {
-                    assert(layout_prefix(stage - 1, %s) == tail_prefix(stage - 1, cs, strs));
-                    assert(done.len() == layout_prefix(stage - 1, %s).len() + layout_chunk(stage, %s).len());
-                    lemma_pad_arith(layout_prefix(stage - 1, %s).len() as int, layout_chunk(stage, %s).len() as int, writer.offset as int); }
-                /*@L:padding_is_the_next_chunk_of_the_layout:C15,C09,C10*/ assert(chunk == layout_chunk(stage + 1, %s));
-                assert(done + chunk == layout_prefix(stage + 1, %s));
-                lemma_track_pad(sunk0, done, pad_len(writer.offset as int), canon); }
-        """ % (LPA, LPA, LPA, LPA, LPA, LPA, LPA))
+                if inloop:
+                    raise AnchorLost("pad_to_8 inside the class loop is not a shape the tracking knows")
+                reg.insert_at(m.start(), """proof { if stage % 2 == 1 {
+                    lemma_tail_pad(sunk0, stage, cs, strs, writer.offset as int);
+                    /*@L:padding_is_the_next_chunk_of_the_layout:C15,C09,C10*/ assert(zeros(pad_len(writer.offset as int)) == tail_chunk(stage + 1, cs, strs));
+                } else { lemma_tail_pad_noop(sunk0, stage, cs, strs, writer.offset as int); } }
+        """)
                 reg.insert_at(m.end(), """
-        proof { done = done + chunk; stage = stage + 1; assert(done == layout_prefix(stage, %s)); assert(writer.inner.sunk() == sunk0 + done); assert(writer.offset as int == done.len() %% 8); }""" % LPA)
+        proof { if stage % 2 == 1 { stage = stage + 1; } }""" + AFTER)
                 continue
             arg = m.group(2).strip()
             chunk = None
@@ -163,12 +152,12 @@ def build():
         proof { done = done + chunk; assert(writer.inner.sunk() == sunk0 + done); assert(writer.offset as int == done.len() % 8); }""")
             else:
                 reg.insert_at(m.start(), """let ghost chunk = %s;
-        proof { /*@L:chunk_is_the_next_chunk_of_the_layout:C15,C09,C10,C03,C02*/ assert(chunk == layout_chunk(stage + 1, %s));
-                assert(done + chunk == layout_prefix(stage + 1, %s));
-                lemma_track_write(sunk0, done, chunk, canon); }
-        """ % (chunk, LPA, LPA))
+        proof { /*@L:a_section_starts_on_an_aligned_position:C15,C09,C10*/ assert(stage %% 2 == 0 && stage < 9);
+                /*@L:chunk_is_the_next_chunk_of_the_layout:C15,C09,C10,C03,C02*/ assert(chunk == tail_chunk(stage + 1, cs, strs));
+                lemma_tail_write(sunk0, stage, cs, strs); }
+        """ % chunk)
                 reg.insert_at(m.end(), """
-        proof { done = done + chunk; stage = stage + 1; assert(done == layout_prefix(stage, %s)); assert(writer.inner.sunk() == sunk0 + done); assert(writer.offset as int == done.len() %% 8); }""" % LPA)
+        proof { stage = stage + 1; }""" + AFTER)
 
     DOMAIN = "sum_members_len(vals(classes)) <= u32::MAX, sum_by_params_len(vals(classes)) <= u32::MAX,"
     # ---- region A ----
@@ -176,10 +165,9 @@ def build():
     A.insert_at(0, """let ghost cs = vals(classes);
         let ghost strs = table_bytes(string_table);
         let ghost sunk0 = writer.inner.sunk();
-        """ + GHOSTS + """let ghost mut done: Seq<u8> = Seq::empty();
-        let ghost mut stage: int = 0;
-        proof { lemma_add_empty(sunk0); assert(done == layout_prefix(0, %s)); }
-        """ % LPA)
+        """ + GHOSTS + """let ghost mut stage: int = 0;
+        proof { lemma_tail_start(sunk0, cs, strs); }
+        """)
     track(A)
     if re.search(r"writer\s*\.\s*write_all\(header\.as_bytes\(\)\)", A.orig):
         A.insert_before("writer.write_all(header.as_bytes())", "proof { /*@L:header_fields_are_magic_version_and_counts:C09,C10*/ assert(header == header_of(cs, strs)); }\n        ")
@@ -204,8 +192,11 @@ def build():
     # ---- region B ----
     shims(B)
     bl = B.loops()
-    B.insert_at(0, GHOSTS + """let ghost mut done: Seq<u8> = tail_prefix(2, cs, strs);
-        let ghost mut stage: int = 2;
+    B.insert_at(0, GHOSTS + """let ghost mut stage: int = 2;
+        let ghost p2 = tail_prefix(2, cs, strs);
+        let ghost cb = classes_bytes(cs, nn);
+        let ghost mut done: Seq<u8> = p2;
+        proof { lemma_classes_len(cs, nn); lemma_tail_write(sunk0, 2, cs, strs); assert(cb == tail_chunk(3, cs, strs)); }
         """)
     track(B, (bl[0][2], bl[0][3]))
     B.for_to_loop(1, it_name="it", iter_expr="shim_into_values(classes)",
@@ -216,10 +207,9 @@ def build():
                 it.obeys_prophetic_iter_laws(), it.decrease() is Some,
                 0 <= n <= nn, nn == cs.len(), cs.skip(n) == it.remaining(),
                 cs == vals(classes), sunk0 == sunk0_, strs == strs_,
-                canon == canonical(cs, strs), hb == hdr_bytes(header_of(cs, strs)), hb.len() == 24,
-                cb == classes_bytes(cs, nn),
+                canon == canonical(cs, strs), cb == classes_bytes(cs, nn),
                 is_prefix_of(p2 + cb, canon),
-                done == p2 + classes_bytes(cs, n), p2 == Seq::<u8>::empty() + hb + zeros(pad_len(hb.len() as int)),
+                done == p2 + classes_bytes(cs, n), p2 == tail_prefix(2, cs, strs),
                 writer.inner.sunk() == sunk0 + done,
                 writer.offset as int == done.len() % 8,
                 members@ == all_members(cs, n), members_by_params@ == all_by_params(cs, n),
@@ -256,17 +246,16 @@ def build():
     let ghost sunk0 = sunk0_;
     let ghost strs = strs_;
 """, suffix="""
-    proof { assert(done == layout_prefix(3, hb, z1, cb, z2, mb, z3, pb, z4, strs)); }
+    proof { /*@L:B_ends_after_the_class_section:C15,C09,C10*/ assert(stage == 2); lemma_tail_step(2, cs, strs); assert(done == tail_prefix(3, cs, strs)); }
     Ok((members, members_by_params))
 }
 """)
     # ---- region C ----
     shims(C)
-    C.insert_at(0, GHOSTS + """let ghost mut done: Seq<u8> = tail_prefix(3, cs, strs);
-        let ghost mut stage: int = 3;
+    C.insert_at(0, GHOSTS + """let ghost mut stage: int = 3;
         """)
     track(C)
-    C.insert_at(len(C.orig) - len("Ok(())"), "proof { /*@L:everything_was_written:C15,C09,C10*/ assert(stage == 9); assert(done == canon); }\n        ")
+    C.insert_at(len(C.orig) - len("Ok(())"), "proof { /*@L:everything_was_written:C15,C09,C10*/ assert(stage == 9); lemma_tail_prefix_9(cs, strs); }\n        ")
     u.emit(C, prefix="""fn region_tail_c<'d, W: Write>(writer: &mut PaddedWriter<W>, members: Vec<Member>, members_by_params: Vec<Member>, string_bytes: Vec<u8>,
         Ghost(sunk0_): Ghost<Seq<u8>>, Ghost(cs_): Ghost<Seq<ClassInProgress<'d>>>) -> (ret: std::io::Result<()>)
     requires
